@@ -29,7 +29,9 @@ ASSUMPTIONS = [
     "'all byte strings' is replaced by this structured single-fault space (thorough: pairs within one structure for the small seeds)",
     "step = backward jump or function entry in code under dissect/ (sys.monitoring); budget = 20 x the un-faulted seed's steps + "
     "1024 x (input sectors + request sectors) + 20000 (two steps per input byte: cstruct's own parsing loops are counted too); memory budget = 32 MiB + 16 x (input + request bytes) of traced peak",
-    "time spent inside C extensions (zlib, hashlib) is bounded only by the watchdog and the memory meter",
+    "time spent inside C extensions (zlib, hashlib) is bounded only by the watchdog and the memory meter; the one exception is "
+    "the tiny-unit-large-read family, which compares the processor time of a request with that of its first quarter (reported "
+    "only when the request needs more than 6 s and more than 7 x its quarter: the unchanged library needs under a second)",
 ]
 ALPHABET = "seed x field x fault value; truncation point; alias pair; cycle; bomb"
 BOUND = {"quick": "single faults on ~40 seeds", "thorough": "adds fault pairs within the header of each seed"}
@@ -545,6 +547,11 @@ def _special_cases():
             out.append({"kind": "special", "what": "vhdx-parent-chain-cycle", "depth": depth, "both_paths": both})
     for fmt in ("vdi", "vhd", "vhdx", "hds1", "hds2", "vmdk"):
         out.append({"kind": "special", "what": "huge-unit-small-read", "fmt": fmt})
+    for fmt in ("vdi", "vhd", "hds2", "vmdk", "qcow2"):
+        for alloc in ("holes", "data"):
+            out.append({"kind": "special", "what": "tiny-unit-large-read", "fmt": fmt, "alloc": alloc})
+    for depth in (4, 8):
+        out.append({"kind": "special", "what": "vmdk-descriptor-chain-embedded-parents", "depth": depth})
     for tgt in ("pax-header", "first-header", "own-header"):
         for typ in ("x", "X", "g+x", "g+X"):
             out.append({"kind": "special", "what": "vmtar-pax-size-then-visor-offset-backwards", "target": tgt, "typ": typ})
@@ -1035,6 +1042,80 @@ def _run_special(case, ctx):
                 return _drive_stream(v, v.read_sectors)
 
         return _execute(ctx, case, None, None, subject, drv, {}, depth * (8 << 20))
+    if what == "vmdk-descriptor-chain-embedded-parents":
+        # a valid chain: every level is a text descriptor with two sparse extents, and every extent file also carries an embedded
+        # descriptor naming the level below.  The work to open it and read a little is linear in the number of files
+        depth = case["depth"]
+
+        def drv(files):
+            from dissect.hypervisor.disk.vmdk import VMDK
+
+            with scratch_dir() as d:
+                for fn, data in files.items():
+                    with open(os.path.join(d, fn), "wb") as f:
+                        f.write(data)
+                v = VMDK(Path(d) / f"l{depth - 1}.vmdk")
+                return _drive_stream(v, v.read_sectors)
+
+        files = {}
+        for k in range(depth):
+            pcid = f"{k:08x}" if k else "ffffffff"
+            hint = f"l{k - 1}.vmdk" if k else None
+            ext = [("RW", 16, "SPARSE", f"l{k}-s{j + 1:03d}.vmdk", None) for j in range(2)]
+            for j in range(2):
+                emb = BM.descriptor_text("twoGbMaxExtentSparse", ext, cid=f"{k + 1:08x}", parent_cid=pcid, parent_hint=hint)
+                files[ext[j][3]] = BM.build_hosted([HOLE, DATA] if (k + j) % 2 else [DATA, HOLE], [None, 0] if (k + j) % 2 else [0, None],
+                                                   8, 512, 16, layer=k + 1, descriptor=emb).tobytes()
+            files[f"l{k}.vmdk"] = BM.descriptor_text("twoGbMaxExtentSparse", ext, cid=f"{k + 1:08x}", parent_cid=pcid,
+                                                     parent_hint=hint).encode()
+        return _execute(ctx, case, None, files, subject, drv, {}, sum(len(v) for v in files.values()))
+    if what == "tiny-unit-large-read":
+        # 512-byte allocation units, one request over n / 4 of them and one over n: the step budget bounds the interpreter's
+        # work, the processor time of the two requests bounds the work hidden in single steps (copies that grow with what has
+        # been read so far).  Four times the request may cost about four times the time; a request that is both slow (> 6 s of
+        # processor time, the unchanged library needs well under a second) and more than 7 x its quarter is not linear
+        import time
+
+        from mc.builders import hdd as BH
+        from mc.builders import qcow2 as BQ
+        from mc.builders import vdi as BV
+        from mc.builders import vhd as BVHD
+
+        fmt, alloc = case["fmt"], case["alloc"]
+        n = 16384
+        st = [DATA if alloc == "data" else HOLE] * n
+        sl = list(range(n)) if alloc == "data" else [None] * n
+        if fmt == "vdi":
+            raw, mk = BV.build(st, sl, 512, tail_slack=False).tobytes(), lambda r: __import__("dissect.hypervisor.disk.vdi", fromlist=["VDI"]).VDI(io.BytesIO(r))
+        elif fmt == "vhd":
+            raw, mk = BVHD.build_dynamic(st, sl, 1).tobytes(), lambda r: __import__("dissect.hypervisor.disk.vhd", fromlist=["VHD"]).VHD(io.BytesIO(r))
+        elif fmt == "hds2":
+            raw, mk = BH.build_hds(st, [None if x is None else x + 400 for x in sl], 1, 2, tail_slack=False).tobytes(), lambda r: __import__("dissect.hypervisor.disk.hdd", fromlist=["HDS"]).HDS(io.BytesIO(r))
+        elif fmt == "vmdk":
+            raw, mk = BM.build_hosted(st, sl, 1, 512).tobytes(), lambda r: __import__("dissect.hypervisor.disk.vmdk", fromlist=["VMDK"]).VMDK(io.BytesIO(r))
+        else:
+            raw = BQ.build(["N" if alloc == "data" else "U"] * n, sl, 9, 3)[0].tobytes()
+            mk = lambda r: __import__("dissect.hypervisor.disk.qcow2", fromlist=["QCow2"]).QCow2(io.BytesIO(r))  # noqa: E731
+        times = {}
+
+        def drv(r):
+            v = mk(r)
+            out = 0
+            for part in (4, 1):
+                v.seek(0)
+                t0 = time.process_time()
+                out += len(v.read(n * 512 // part))
+                times[part] = time.process_time() - t0
+            return out
+
+        ok = _execute(ctx, case, None, raw, subject, drv, {}, len(raw) + n * 512)
+        if ok and times.get(1) is not None:
+            ctx.maxi("tiny_unit_full_over_quarter_time_permille", int(1000 * times[1] / max(times[4], 1e-3)))
+            if times[1] > 6.0 and times[1] > 7 * times[4]:
+                ctx.violation(case, {"subject": subject, "kind": "time-not-linear-in-request"},
+                              {"quarter_request_s": round(times[4], 2), "full_request_s": round(times[1], 2), "units": n})
+                return False
+        return ok
     if what == "huge-unit-small-read":
         # the allocation unit is 128 MiB, the disk 1 GiB, nothing is allocated: the file is a few KiB and the reads are a few
         # KiB, so the cost may not follow the unit size the header declares
